@@ -188,7 +188,7 @@ impl Prop for C24 {
     type Scn = Scn;
     fn runs(tier: Tier) -> u64 {
         match tier {
-            Tier::Quick => 60_000,
+            Tier::Quick => 200_000,
             Tier::Thorough => 20_000_000,
         }
     }
